@@ -70,6 +70,14 @@ def alphabet(seed):
                 re[(g // 2) % 2] = -abs(re[(g // 2) % 2])
             p[k] = (re, im)
         pts.append(p)
+    # points 4, 5: extreme arguments for single-node trees (large |x| beyond the switch-over of numerically
+    # stabilised formulas such as softplus / sigmoid / log1p(exp), tiny |x| for series branches such as sinc / expm1)
+    for big in (True, False):
+        p = {}
+        for i, k in enumerate("abcx"):
+            re = (np.array([35.5, -37.25]) + u(0., 0.5, 2)) if big else (np.array([1e-6, -3e-7]) * u(1., 2., 2))
+            p[k] = (re, u(.3, .8, 2) * sg(2))
+        pts.append(p)
     rng2 = np.random.default_rng(104729 + 31 * int(seed))      # separate stream: matrix-valued keys P, Q, R on (S, S)
     for g in range(4):
         for k in "PQR":
@@ -78,6 +86,9 @@ def alphabet(seed):
             if g % 2 == 1:
                 re[g // 2, (g // 2 + "PQR".index(k)) % 2] *= -1.
             pts[g][k] = (re, im)
+    for g in (4, 5):
+        for k in "PQR":
+            pts[g][k] = pts[0][k]
     A["cm"] = rng2.uniform(.5, 1.5, (NPIX, NPIX))
     A["cmi"] = rng2.uniform(.3, .8, (NPIX, NPIX)) * rng2.choice([-1., 1.], (NPIX, NPIX))
     A["points"] = pts
@@ -136,7 +147,7 @@ def ptw_guard(name, v):
         ok = np.all(np.abs(v) >= .05)
     elif f == "clip":
         ok = np.all(np.abs(v - CLIP[0]) >= .03) and np.all(np.abs(v - CLIP[1]) >= .03)
-    if f in ("exp", "expm1", "sinh", "cosh", "exponentiate", "softplus", "sin", "cos", "tan", "sinc"):
+    if f in ("exp", "expm1", "sinh", "cosh", "exponentiate") or (cplx and f in ("softplus", "sin", "cos", "tan", "sinc")):
         ok = ok and np.all(np.abs(v.real) <= 12.) and np.all(np.abs(v.imag) <= 12.)
     if not ok:
         raise Outside("argument outside valid range of " + f)
